@@ -168,3 +168,10 @@ Section Reachable.
   Theorem flag_only_on_first_call ops : ok_ops {| bk_open := []; bk_auction := []; bk_final := []; bk_calls := [] |} ops -> flag_first (bk_calls (brun fin ops)).
   Proof. intros H. unfold brun. exact (inv_first _ (proj1 (run_jinv ops _ jinv_init H))). Qed.
 End Reachable.
+
+(* the program of SimulationBroker._match, as regenerated from the source, IS the model's matching round *)
+Lemma interp_expected_match fin ph s : interp fin ph expected_match s = bmatch fin s ph.
+Proof. unfold interp, expected_match, bmatch. cbn [fold_left interp_prim]. destruct ph; reflexivity. Qed.
+Lemma prog_eqb_eq a : forall b, prog_eqb a b = true -> a = b.
+Proof. induction a as [|x s IH]; intros [|y t] H; cbn in H; try discriminate; [reflexivity|].
+  apply andb_prop in H as [E H]. rewrite (IH t H). destruct x, y; cbn in E; try discriminate; reflexivity. Qed.
